@@ -32,7 +32,11 @@ import (
 	scheduler "github.com/oasisprotocol/oasis-core/go/scheduler/api"
 	staking "github.com/oasisprotocol/oasis-core/go/staking/api"
 
+	governance "github.com/oasisprotocol/oasis-core/go/governance/api"
+	"github.com/oasisprotocol/oasis-core/go/common/quantity"
+
 	"verifharness/internal/muxdrv"
+	"verifharness/internal/prng"
 )
 
 // rtScen is the per-history runtime scenario.
@@ -46,6 +50,19 @@ type rtScen struct {
 	slashAmt  *big.Int
 	prevArmed bool // a round timeout was armed after the previous block
 	prevSusp  bool
+
+	own        []bool   // nodes[i] belongs to its OWN entity (else to validator 0's entity)
+	ownEscrow  []uint64 // self-escrow of the own entity (just above / well above the thresholds)
+	stragglers uint16
+	liveEval   uint64 // MinLiveRoundsForEvaluation (0 = liveness evaluation off)
+	livePct    uint8
+	maxFails   uint8
+	liveSlash  *big.Int
+	msgs       bool // rounds carry runtime messages
+	rtModel    registry.RuntimeGovernanceModel
+	updates    int // runtime descriptor updates submitted so far
+	wantRtGov  bool
+	missPct    uint8 // MaxMissedProposalsPercent
 }
 
 func rtKnobs(k *knobs) {
@@ -66,27 +83,57 @@ func (w *world) rtInit() {
 	s.backup = uint16(r.Intn(2))
 	s.timeout = int64(2 + r.Intn(6))
 	s.expire = uint64(2 + r.Intn(3))
-	if r.Chance(15) {
+	if r.Chance(40) {
 		s.expire = 1000
 	}
 	s.slashAmt = pickBig(r, big.NewInt(0), big.NewInt(100), big.NewInt(5000), bigPow2(61))
 	n := int(s.group+s.backup) + r.Intn(2)
+	multi := r.Chance(60) // several entities own the compute nodes
 	for i := 0; i < n; i++ {
 		cn := *muxdrv.NewValidator(w.g.Seed, 10+i)
-		cn.Entity = w.g.Validators[0].Entity
+		own := multi && (i > 0 || r.Chance(50))
+		if !own {
+			cn.Entity = w.g.Validators[0].Entity
+		}
 		s.nodes = append(s.nodes, &cn)
+		s.own = append(s.own, own)
+		// thresholds: entity 100 + compute node 300
+		s.ownEscrow = append(s.ownEscrow, []uint64{400, 450, 1000, 20000}[r.Intn(4)])
 	}
+	s.stragglers = uint16(r.Intn(2))
+	if r.Chance(60) {
+		s.liveEval, s.livePct, s.maxFails = uint64(r.Intn(3)), []uint8{60, 100, 100}[r.Intn(3)], []uint8{1, 1, 2}[r.Intn(3)]
+		s.missPct = []uint8{0, 50, 1}[r.Intn(3)]
+	}
+	s.liveSlash = pickBig(r, big.NewInt(0), big.NewInt(100), big.NewInt(5000), bigPow2(61))
+	s.msgs = r.Chance(60)
+	// a runtime is always registered under entity governance; some are handed over to
+	// runtime governance later (then only the runtime itself -- a message -- can update it)
+	s.rtModel = registry.GovernanceEntity
+	s.wantRtGov = r.Chance(35)
 	if w.d.Script == scriptRtSlashReward {
 		// deterministic: 2 workers + 1 backup, all nodes of ONE entity whose commission is 100 %,
 		// incorrect-results penalty larger than the entity's escrow
 		s.group, s.backup, s.timeout, s.expire, s.slashAmt = 2, 1, 5, 1000, bigPow2(61)
 		s.nodes = nil
+		s.own, s.ownEscrow = nil, nil
 		for i := 0; i < 3; i++ {
 			cn := *muxdrv.NewValidator(w.g.Seed, 10+i)
 			cn.Entity = w.g.Validators[0].Entity
 			s.nodes = append(s.nodes, &cn)
+			s.own = append(s.own, false)
+			s.ownEscrow = append(s.ownEscrow, 0)
+		}
+		s.stragglers, s.liveEval, s.msgs, s.rtModel = 0, 0, false, registry.GovernanceEntity
+	}
+	multiN := 0
+	for _, o := range s.own {
+		if o {
+			multiN++
 		}
 	}
+	w.count(fmt.Sprintf("rt-owners/%d own-entity nodes of %d", multiN, len(s.nodes)))
+	w.count(fmt.Sprintf("rt-liveness/eval=%d stragglers=%d msgs=%v", s.liveEval, s.stragglers, s.msgs))
 	w.rt = s
 	w.count(fmt.Sprintf("rt-shape/group=%d backup=%d", s.group, s.backup))
 	w.count(fmt.Sprintf("rt-timeout/%d", s.timeout))
@@ -105,7 +152,8 @@ func (w *world) rtDescriptor() *registry.Runtime {
 		ID:        s.id,
 		EntityID:  w.g.Validators[0].Entity.Public(),
 		Kind:      registry.KindCompute,
-		Executor:  registry.ExecutorParameters{GroupSize: s.group, GroupBackupSize: s.backup, RoundTimeout: s.timeout, MaxMessages: 32},
+		Executor: registry.ExecutorParameters{GroupSize: s.group, GroupBackupSize: s.backup, RoundTimeout: s.timeout + int64(s.updates%3), MaxMessages: 32,
+			AllowedStragglers: s.stragglers, MinLiveRoundsForEvaluation: s.liveEval, MinLiveRoundsPercent: s.livePct, MaxLivenessFailures: s.maxFails, MaxMissedProposalsPercent: s.missPct},
 		TxnScheduler: registry.TxnSchedulerParameters{
 			BatchFlushTimeout: time.Second, MaxBatchSize: 1, MaxBatchSizeBytes: 1024, ProposerTimeout: 2 * time.Second,
 			MaxInMessages: 2,
@@ -117,12 +165,13 @@ func (w *world) rtDescriptor() *registry.Runtime {
 				scheduler.RoleBackupWorker: {MinPoolSize: &registry.MinPoolSizeConstraint{Limit: s.backup}},
 			},
 		},
-		GovernanceModel: registry.GovernanceEntity,
+		GovernanceModel: s.rtModel,
 		Staking: registry.RuntimeStakingParameters{
 			MinInMessageFee: qU(100),
 			Slashing: map[staking.SlashReason]staking.Slash{
 				staking.SlashRuntimeIncorrectResults: {Amount: qBig(s.slashAmt)},
 				staking.SlashRuntimeEquivocation:     {Amount: qBig(s.slashAmt)},
+				staking.SlashRuntimeLiveness:         {Amount: qBig(s.liveSlash), FreezeInterval: 1},
 			},
 			RewardSlashEquvocationRuntimePercent: 30,
 			RewardSlashBadResultsRuntimePercent:  40,
@@ -162,7 +211,11 @@ func (w *world) rtNode(id signature.PublicKey) *muxdrv.Validator {
 // variant selects the (arbitrary, non-TEE) result roots: equal variants are equal votes.
 func (w *world) rtCommit(blk *block.Block, sched signature.PublicKey, n *muxdrv.Validator, variant int, failure commitment.ExecutorCommitmentFailure, roundDelta int64, badPrev bool) (*commitment.ExecutorCommitment, error) {
 	nb := block.NewEmptyBlock(blk, 1, block.Normal)
-	msgs := message.MessagesHash(nil)
+	var rmsgs []message.Message
+	if variant == 0 || variant == 1 || variant == 2 {
+		rmsgs = w.rtMsgs(nb.Header.Round) // every vote on the scheduler's batch carries its messages hash
+	}
+	msgs := message.MessagesHash(rmsgs)
 	var empty hash.Hash
 	empty.Empty()
 	io := hash.NewFromBytes([]byte(fmt.Sprintf("io/%d/%d", nb.Header.Round, variant)))
@@ -188,10 +241,57 @@ func (w *world) rtCommit(blk *block.Block, sched signature.PublicKey, n *muxdrv.
 	} else {
 		ec.Header.Failure = failure
 	}
+	if failure == commitment.FailureNone && n.Node.Public().Equal(sched) {
+		ec.Messages = rmsgs // only the scheduler includes the messages themselves
+		w.count(fmt.Sprintf("rt-msgs/scheduler commit with %d runtime messages", len(rmsgs)))
+	}
 	if err := ec.Sign(n.Node.Signer, w.rt.id); err != nil {
 		return nil, err
 	}
 	return &ec, nil
+}
+
+// rtMsgs is the (deterministic) list of runtime messages of a round: staking transfers /
+// withdrawals / escrow operations from the runtime's account incl. failing ones, a runtime
+// update, governance votes.
+func (w *world) rtMsgs(round uint64) []message.Message {
+	s := w.rt
+	if !s.msgs {
+		return nil
+	}
+	r := prng.New(w.d.HSeed*31 + round*7919 + 5)
+	if r.Chance(45) {
+		return nil
+	}
+	g := w.g
+	amt := func() quantity.Quantity {
+		if r.Chance(60) {
+			return qU(uint64(10 + r.Intn(300)))
+		}
+		return []quantity.Quantity{qU(0), qU(1), qU(1_000_000), qBig(bigPow2(128))}[r.Intn(4)]
+	}
+	var out []message.Message
+	for i := 0; i < 1+r.Intn(3); i++ {
+		switch r.Intn(16) {
+		case 0, 1, 8, 9, 10:
+			out = append(out, message.Message{Staking: &message.StakingMessage{Transfer: &staking.Transfer{To: g.Accounts[5].Address, Amount: amt()}}})
+		case 2, 11:
+			out = append(out, message.Message{Staking: &message.StakingMessage{Withdraw: &staking.Withdraw{From: g.Accounts[6].Address, Amount: amt()}}})
+		case 3, 12, 13:
+			out = append(out, message.Message{Staking: &message.StakingMessage{AddEscrow: &staking.Escrow{Account: g.Validators[r.Intn(len(g.Validators))].EntityAddress(), Amount: amt()}}})
+		case 4:
+			out = append(out, message.Message{Staking: &message.StakingMessage{ReclaimEscrow: &staking.ReclaimEscrow{Account: g.Validators[r.Intn(len(g.Validators))].EntityAddress(), Shares: amt()}}})
+		case 5:
+			d := w.rtDescriptor()
+			d.Executor.RoundTimeout = int64(2 + r.Intn(6))
+			out = append(out, message.Message{Registry: &message.RegistryMessage{UpdateRuntime: d}})
+		case 6, 14:
+			out = append(out, message.Message{Governance: &message.GovernanceMessage{CastVote: &governance.ProposalVote{ID: uint64(1 + r.Intn(3)), Vote: governance.Vote(1 + r.Intn(3))}}})
+		default:
+			out = append(out, message.Message{Staking: &message.StakingMessage{}}) // no field set: invalid
+		}
+	}
+	return out
 }
 
 func (w *world) rtCommitTx(local map[staking.Address]uint64, signer *muxdrv.Validator, kind string, ecs ...*commitment.ExecutorCommitment) genTx {
@@ -237,12 +337,31 @@ func (w *world) roothashBlock(b int) *blockPlan {
 	case 0:
 		bp.txs = append(bp.txs, genTx{raw: muxdrv.Sign(v0.Entity, registry.NewRegisterRuntimeTx(w.nextNonce(v0.Entity, local), big4, w.rtDescriptor())), kind: "rt:register runtime"})
 		ids := []signature.PublicKey{v0.Node.Public()}
-		for _, cn := range s.nodes {
-			ids = append(ids, cn.Node.Public())
+		for i, cn := range s.nodes {
+			if !s.own[i] {
+				ids = append(ids, cn.Node.Public())
+			}
 		}
 		bp.txs = append(bp.txs, genTx{raw: muxdrv.Sign(v0.Entity, muxdrv.TxRegisterEntity(w.nextNonce(v0.Entity, local), big4, v0.Entity, ids)), kind: "rt:register entity nodes"})
+		// fund the other node owners and the runtime's own account
+		rich := g.Accounts[4]
+		for i, cn := range s.nodes {
+			if s.own[i] {
+				bp.txs = append(bp.txs, genTx{raw: muxdrv.Sign(rich.Key, muxdrv.TxTransfer(w.nextNonce(rich.Key, local), muxdrv.Fee(5, muxdrv.DefaultGas), cn.Entity.Address(), 60_000)), kind: "rt:fund node owner"})
+			}
+		}
+		tx := staking.NewTransferTx(w.nextNonce(rich.Key, local), muxdrv.Fee(5, muxdrv.DefaultGas), &staking.Transfer{To: staking.NewRuntimeAddress(s.id), Amount: qU(uint64(2000 + r.Intn(40_000)))})
+		bp.txs = append(bp.txs, genTx{raw: muxdrv.Sign(rich.Key, tx), kind: "rt:fund runtime account"})
 		return bp
 	case 1:
+		for i, cn := range s.nodes {
+			if s.own[i] {
+				bp.txs = append(bp.txs, genTx{raw: muxdrv.Sign(cn.Entity, muxdrv.TxAddEscrow(w.nextNonce(cn.Entity, local), muxdrv.Fee(1, muxdrv.DefaultGas), cn.Entity.Address(), s.ownEscrow[i])), kind: "rt:node owner self-escrow"})
+				bp.txs = append(bp.txs, genTx{raw: muxdrv.Sign(cn.Entity, muxdrv.TxRegisterEntity(w.nextNonce(cn.Entity, local), big4, cn.Entity, []signature.PublicKey{cn.Node.Public()})), kind: "rt:register node owner entity"})
+			}
+		}
+		return bp
+	case 2:
 		bp.txs = append(bp.txs, w.rtRegisterNodes(local, s.expire)...)
 		return bp
 	}
@@ -320,6 +439,31 @@ func (w *world) roothashBlock(b int) *blockPlan {
 		tx := roothash.NewSubmitMsgTx(w.nextNonce(a.Key, local), muxdrv.Fee(uint64(r.Intn(60)), 4*muxdrv.DefaultGas), &roothash.SubmitMsg{ID: s.id, Fee: qU(100), Tokens: qU(uint64(r.Intn(3000))), Data: []byte("in")})
 		bp.txs = append(bp.txs, genTx{raw: muxdrv.Sign(a.Key, tx), kind: "rt:submit in-message"})
 	}
+	if st != nil && st.Runtime != nil {
+		s.rtModel = st.Runtime.GovernanceModel
+	}
+	// hand-over to runtime governance: stake for the runtime's own account, then the update
+	if s.wantRtGov && s.rtModel == registry.GovernanceEntity && st != nil && r.Chance(15) {
+		rich := g.Accounts[4]
+		bp.txs = append(bp.txs, genTx{raw: muxdrv.Sign(rich.Key, muxdrv.TxAddEscrow(w.nextNonce(rich.Key, local), muxdrv.Fee(1, muxdrv.DefaultGas), staking.NewRuntimeAddress(s.id), uint64(500+r.Intn(3000)))), kind: "rt:escrow for the runtime account"})
+		d := w.rtDescriptor()
+		d.GovernanceModel = registry.GovernanceRuntime
+		bp.txs = append(bp.txs, genTx{raw: muxdrv.Sign(v0.Entity, registry.NewRegisterRuntimeTx(w.nextNonce(v0.Entity, local), big4, d)), kind: "rt:hand over to runtime governance"})
+	}
+	// runtime governance: the owner updates the descriptor (round timeout changes)
+	if r.Chance(6) && s.rtModel == registry.GovernanceEntity {
+		s.updates++
+		bp.txs = append(bp.txs, genTx{raw: muxdrv.Sign(v0.Entity, registry.NewRegisterRuntimeTx(w.nextNonce(v0.Entity, local), big4, w.rtDescriptor())), kind: "rt:update runtime descriptor"})
+	}
+	// a node owner pulls its stake: below the thresholds its node is not eligible next epoch
+	if r.Chance(5) {
+		for i, cn := range s.nodes {
+			if s.own[i] && r.Chance(50) {
+				bp.txs = append(bp.txs, genTx{raw: muxdrv.Sign(cn.Entity, muxdrv.TxReclaimEscrow(w.nextNonce(cn.Entity, local), muxdrv.Fee(1, muxdrv.DefaultGas), cn.Entity.Address(), s.ownEscrow[i]/2)), kind: "rt:node owner reclaims escrow"})
+				break
+			}
+		}
+	}
 	// resumption: re-register the compute nodes
 	ep := w.prev.epoch
 	if (st == nil || st.Suspended || r.Chance(4)) && r.Chance(25) {
@@ -386,15 +530,20 @@ func (w *world) roothashBlock(b int) *blockPlan {
 	}
 
 	switch x := r.Intn(100); {
-	case x < 22:
+	case x < 12:
 		// nothing: an armed timeout keeps running / an idle runtime stays idle
 	case x < 50 && !haveSched:
 		// the primary scheduler alone: with more than one worker the round stays open and the
 		// round timeout is armed for this height + RoundTimeout
 		bp.txs = append(bp.txs, w.rtCommitTx(local, sched, "rt:scheduler commit", mk(sched, 0, commitment.FailureNone)))
 	case x < 50:
-		// the remaining workers agree
-		for _, n := range others {
+		// the remaining workers agree (with allowed stragglers the last one often stays silent:
+		// it misses the round, which the liveness evaluation at the epoch end counts)
+		for i, n := range others {
+			if s.stragglers > 0 && i == len(others)-1 && r.Chance(60) {
+				w.count("rt-msgs/a worker deliberately misses the round")
+				continue
+			}
 			bp.txs = append(bp.txs, w.rtCommitTx(local, n, "rt:worker commit (agrees)", mk(n, 0, commitment.FailureNone)))
 		}
 	case x < 62:
@@ -402,7 +551,11 @@ func (w *world) roothashBlock(b int) *blockPlan {
 		if !haveSched {
 			bp.txs = append(bp.txs, w.rtCommitTx(local, sched, "rt:scheduler commit", mk(sched, 0, commitment.FailureNone)))
 		}
-		for _, n := range others {
+		for i, n := range others {
+			if s.stragglers > 0 && i == len(others)-1 && r.Chance(60) {
+				w.count("rt-msgs/a worker deliberately misses the round")
+				continue
+			}
 			bp.txs = append(bp.txs, w.rtCommitTx(local, n, "rt:worker commit (agrees)", mk(n, 0, commitment.FailureNone)))
 		}
 	case x < 76:
